@@ -592,6 +592,7 @@ def run(ctx, crate):
     ctx.floor(rule, n, 2, cfg, "format_bar call sites")
     rule_fraction_clamp(ctx, crate)
     rule_char_width_coherent(ctx, crate)
+    rule_cluster_measure(ctx, crate)
 
     # ---- R-WIDE-BAR-WIDTH ---------------------------------------------------------------------------------
     rule = "R-WIDE-BAR-WIDTH"
@@ -660,6 +661,64 @@ def rule_char_width_coherent(ctx, crate, rule="R-CHAR-WIDTH-COHERENT"):
                 ctx.check(ok, rule, "constructor-coherent", b.name, "%s:%d" % (b.file, s.get("line", 0)),
                           "a new style's char_width is width() of its own progress_chars", "a new style's char_width is not computed from its progress_chars", cfg)
     ctx.floor(rule, n, 2, cfg, "functions installing a progress_chars table")
+
+
+STR_WIDTH = (r"unicode_width::UnicodeWidthStr::width(_cjk)?", r"console::measure_text_width", r"<str as unicode_width::UnicodeWidthStr>::width(_cjk)?")
+
+
+def rule_cluster_measure(ctx, crate, rule="R-CLUSTER-MEASURE"):
+    """"cells of c columns each": c is the number of terminal columns one progress character - a grapheme cluster - takes. The
+    cluster is measured as a *string* (`UnicodeWidthStr::width` / `console::measure_text_width` of the whole cluster): a cluster
+    can be wider than its first character (an emoji presentation sequence U+2764 U+FE0F is 2 columns, U+2764 alone 1), so a
+    per-character shortcut (`s.chars().next()`, a sum over `chars()`) gives a c that is too small and the bar is drawn with
+    twice as many columns as asked for. Checked in the helper(s) `style::width` maps over the table (today `style::measure`):
+    the result derives from a string-width call on the parameter, and from no per-character width."""
+    cfg = crate.config
+    w = K.find_one(ctx, crate, rule, r"style::width")
+    if not w:
+        return
+    helpers = set()
+    seen, work = {w.name}, [w]
+    while work:
+        b = work.pop()
+        for c in b.calls():
+            if c.callee.get("local") and not c.callee.get("trait"):
+                for tn in crate.resolve_targets(c):
+                    h = crate.bodies.get(tn)
+                    if h is not None and h.name not in seen and h.file == w.file:
+                        seen.add(h.name)
+                        work.append(h)
+        for i, j, s_ in b.assigns():
+            if s_["rv"]["k"] == "agg" and s_["rv"].get("ak") == "closure" and s_["rv"].get("def") in crate.bodies and s_["rv"]["def"] not in seen:
+                seen.add(s_["rv"]["def"])
+                work.append(crate.bodies[s_["rv"]["def"]])
+    n = 0
+    if "unicode-width" not in (crate.features or []):
+        ctx.check(True, rule, "no-unicode-width-feature", w.name, K.fn_loc(w), "without the unicode-width feature clusters are counted in chars", "", cfg)
+        return
+    measured = False
+    for name in sorted(seen):
+        b = crate.bodies[name]
+        strw = b.calls(*STR_WIDTH)
+        charw = b.calls(r"unicode_width::UnicodeWidthChar::width(_cjk)?", r"<char as unicode_width::UnicodeWidthChar>::width(_cjk)?")
+        # ... also when the per-character width is handed on as a function item (`.and_then(UnicodeWidthChar::width)`)
+        fn_items = set()
+        for d_ in b.defs().get(0, ()):
+            sl_ = b.slice_rv(d_["bb"], {"lhs": d_["lhs"], "rv": d_["rv"]}) if d_["kind"] == "assign" else b.slice_args(d_["call"])
+            fn_items |= {a[1] for a in sl_.atoms if a[0] == "fn" and re.search(r"UnicodeWidthChar", a[1])}
+        if not strw and not charw and not fn_items:
+            continue
+        n += 1
+        charw = list(charw) + [type("F", (), {"path": f_, "loc": (lambda self_=None, b_=b: K.fn_loc(b_))})() for f_ in sorted(fn_items)]
+        measured = measured or bool(strw)
+        ok = bool(strw) and not charw and all(b.slice_args(c, [0]).params() for c in strw)
+        ctx.check(ok, rule, "string-width:%s" % K.meth(name), name, (strw or charw)[0].loc(),
+                  "a progress character is measured as a string (the whole cluster)",
+                  "%s measures a cluster through per-character widths (%s): a cluster wider than its first character (emoji presentation sequence, keycap) is under-measured, "
+                  "char_width comes out too small and {bar:N} draws twice the columns" % (K.meth(name), ", ".join(sorted({K.meth(c.path) for c in charw})) or "no string width"), cfg)
+    ctx.check(measured, rule, "measures-clusters", w.name, K.fn_loc(w), "style::width measures each cluster with a string-width function",
+              "no string-width call is reachable from style::width: the cluster width is not measured", cfg)
+    ctx.floor(rule, n, 1, cfg, "cluster measuring helpers")
 
 
 def rule_cur_range(ctx, crate, b, somes, then_closures=(), rule="R-BAR-CUR"):
